@@ -171,7 +171,7 @@ PROPS['C10'] = P(
     [], 'full', determined=True, quick_n=3000, thorough_n=60000,
     assumes=['partial: atomicity of Arc\'s strong count, Drop running exactly once, and linearizability of the crossbeam channel are runtime facts in the trusted base; the theorem quantifies over every op sequence = every interleaving of the (atomic) steps',
              'descendants: "hangs below" is evaluated when the entity is collected (kill_tree); prepared once per entity (S2) for never_while_a_clone_exists',
-             'the driver performs every real drop on a freshly spawned worker thread, but sequentially (deterministic replay); free-running stress is not part of the quick tier'])
+             'the driver performs every real drop on a freshly spawned worker thread, but sequentially (deterministic replay); the thorough tier adds a free-running stress (4 worker threads dropping clones while the main thread collects, 3000 rounds) judged by the statement of the theorems at the end of each round'])
 PROPS['C10']['engine'] = 'c10'
 MANIFEST_TEXT['C10'] = (
  "Machine-checked over a standalone model of auto_despawn.rs, for every operation sequence (prepare / clone / split drop / collect / despawn / reparent — i.e. every interleaving of worker-thread drops with main-thread collections): a signal is live, sending or sent, never two at once; channel entries come only from signals with no clone left; an entity whose signal is live survives every collection; the first collection after the last drop despawns it with what hangs below it; collection is idempotent and ignores dead entities. Tied to /repo by running generated sequences on the real AutoDespawner (drops executed on worker threads) and comparing the live set after every operation.",
